@@ -52,6 +52,10 @@ class HarnessError(Exception):
 _SCRATCH = None
 
 
+# set by the tools that re-run seeded changes, never by a registered check
+FAILFAST = bool(os.environ.get("XV_FAILFAST"))
+
+
 def scratch_root():
     """Per-process scratch directory on tmpfs, removed at exit."""
     global _SCRATCH
@@ -401,11 +405,20 @@ class Ctx:
         - are reported as violations, everything else is run normally"""
         items = list(items)
         while items:
+            if FAILFAST and self.violations:
+                self.exhaustive = False
+                return
             pool = self.pool()
             try:
                 for idx, res in pool.imap_unordered(func, items):
                     items[idx] = _DONE
                     yield res
+                    if FAILFAST and self.violations:
+                        # (only used when a seeded change is re-run: the
+                        # first confirmed violation settles the verdict)
+                        self.exhaustive = False
+                        self.close()
+                        return
                 return
             except WorkerDied as wd:
                 suspects = [items[i] for i in wd.in_flight]
